@@ -81,3 +81,7 @@ Theorem C06_weight_rows_one_per_element : strictly_increasing (map row_z Gen.Mas
 Proof. exact weight_rows_one_per_element. Qed.
 Print Assumptions C06_weight_rows_one_per_element.
 
+
+Theorem C06_isotope_rows_one_per_nuclide : strictly_increasing (map isotope_row_key Gen.MassTables.isotope_mass) = true.
+Proof. exact isotope_rows_one_per_nuclide. Qed.
+Print Assumptions C06_isotope_rows_one_per_nuclide.
